@@ -1148,6 +1148,21 @@ func c08Findings(t *testing.T, st *VStream, stats *VStats, log *logrus.Logger) {
 		w.emitKeys()
 		st.Emit("note lru-after-refresh end", "note")
 	})
+	// (d) a reload that leaves dns{} unchanged reuses the controller through the production path
+	synctest.Test(t, func(t *testing.T) {
+		w := &c08World{log: log, st: st, stats: stats}
+		st.Emit("note reuse-reload-config begin", "note")
+		cfg := c08Cfg{opt: true, stale: 300, max: 50, fixed: []c08Fixed{{"ddns.example.org", 10}}}
+		w.cpStart(cfg)
+		defer func() { _ = w.c.Close() }()
+		t0 := time.Now().UnixNano()
+		ka := w.realKey("a.test", 1, r0)
+		w.insn(t0, ka, "a.test.", 1, 5, 1, 1, 0, 0)
+		w.cpReload(cfg)
+		w.cpReload(cfg)
+		w.look(t0+100*c08Sec, ka, "a.test", 1, false) // 95 s into the configured 300 s window: still served
+		st.Emit("note reuse-reload-config end", "note")
+	})
 	// (c) a background refresh that fails while the entry is inside its stale window
 	synctest.Test(t, func(t *testing.T) {
 		w := &c08World{log: log, st: st, stats: stats}
